@@ -168,6 +168,7 @@ def W3thread (s : State) (t r : Nat) (q : RPC) : Prop :=
 
 structure InvW3 (s : State) : Prop where
   all : ∀ t r q, s.pc t = .rcv r q → W3thread s t r q
+  fresh : ∀ t r x, s.pc t = .rcv r (.rFlag x) → x.reg = false
 
 structure InvW (s : State) : Prop where
   w1 : InvW1 s
